@@ -462,10 +462,16 @@ def sent_record_rule(t, rid):
     # PROV: the ids remembered for a SmallReliable packet are a pure projection of the messages it carries (one id per carried message):
     # no arithmetic on ids, no range spanned between two of them (a packet can carry non-contiguous ids when resend timers are staggered)
     for a_ in t.aggrs("remote_connection::PacketSentInfo", "ReliableMessages"):
-        ids = t.field_of_aggr(a_, "message_ids")
-        if ids is None: continue
+        if " as std::clone::Clone>" in a_.fn.path: continue
+        # the field holding the carried ids = the one non-integer (collection) field of the variant, whatever its name
+        var = [v for k, a in t.F.adts.items() if k.endswith("remote_connection::PacketSentInfo") for v in a["variants"] if v["name"] == "ReliableMessages"]
+        coll = [fd["name"] for fd in (var[0]["fields"] if var else []) if fd["ty"].get("k") != "int"]
+        try: ids = t.field_of_aggr(a_, coll[0]) if len(coll) == 1 else None
+        except ValueError: ids = None
+        if ids is None:
+            r.site(a_); r.bad(f"{a_.fn.path}|ids-field", a_, "the record kept for a sent SmallReliable packet has no list of the message ids it carried (message_ids): an ack of the packet cannot release exactly those messages"); continue
         r.site(a_)
-        if contains(ids, lambda x: isinstance(x, tuple) and x and ((x[0] == "bin" and x[1].startswith(("Add", "Sub"))) or (x[0] == "aggr" and "Range" in str(x[1])))) or not contains(ids, lambda x: isinstance(x, tuple) and x and x[0] == "call" and method_of(x[1]) in ("collect", "map", "push", "extend", "from_iter", "to_vec", "clone", "iter", "into_iter", "unzip")):
+        if contains(ids, lambda x: isinstance(x, tuple) and x and ((x[0] == "bin" and x[1].startswith(("Add", "Sub"))) or (x[0] == "aggr" and "Range" in str(x[1])) or (x[0] == "call" and ("Range" in str(x[1]) or method_of(x[1]) in ("first", "last", "first_mut", "last_mut", "split_first", "split_last", "min", "max") and "messages" in fmt(x))))) or not contains(ids, lambda x: isinstance(x, tuple) and x and x[0] == "call" and method_of(x[1]) in ("collect", "map", "push", "extend", "from_iter", "to_vec", "clone", "iter", "into_iter", "unzip")):
             r.bad(f"{a_.fn.path}|ids-not-a-projection", a_, f"the ids recorded for a SmallReliable packet are computed ({fmt(ids)[:70]}), not collected one by one from the messages the packet carries: an ack of the packet releases ids it never carried")
     for k in ("SmallReliable", "SmallUnreliable", "ReliableSlice", "UnreliableSlice", "Ack"):
         if k not in kinds: r.bad(f"missing|{k}", None, f"{k} packets are not recorded in sent_packets")
